@@ -270,6 +270,9 @@ def check_unit(spec_path, do_twins=True, keep=True):
             res["closures"][it["label"]] = len(rsx.unannotated_closures("\n".join(glines[a - 1:b])))
         except Exception:
             res["closures"][it["label"]] = 0
+    # the text an abstract-span edit replaces is not seen by the verifier: its hash is part of the baseline, and a unit
+    # that still verifies although such a text changed is undecided (the change is outside what the unit checks)
+    res["spans"] = sorted("%s:%s" % (it["label"], e["span_sha"]) for it in meta["items"] for e in it["edits"] if e.get("kind") == "abstract-span" and e.get("span_sha"))
     res["lost_loop_items"] = [it["label"] for it in meta["items"] if any(e.get("kind") == "lost-loop" for e in it["edits"])]
     for it in meta["items"]:
         res["items"].append({"file": it["relpath"], "path": it["path"], "fn": it["fn"],
